@@ -1,6 +1,8 @@
 package main
 
 import (
+	"go/token"
+
 	"golang.org/x/tools/go/ssa"
 )
 
@@ -98,6 +100,68 @@ func enumPaths(fn *ssa.Function, from *ssa.BasicBlock, max int) (paths []Path, o
 	return paths, ok
 }
 
+// feasible rejects paths that contradict a local boolean flag: a condition that is a
+// (negated) phi of boolean constants is evaluated with the edge the path arrived by.
+func (p *Path) feasible() bool {
+	for _, c := range p.Conds {
+		v := c.Cond
+		pol := c.Pol
+		for {
+			u, ok := v.(*ssa.UnOp)
+			if !ok || u.Op != token.NOT {
+				break
+			}
+			v = u.X
+			pol = !pol
+		}
+		phi, ok := v.(*ssa.Phi)
+		if !ok {
+			continue
+		}
+		val, known := p.phiValue(phi, 0)
+		if known && val != pol {
+			return false
+		}
+	}
+	return true
+}
+
+// phiValue: boolean value of phi on this path, if the edge taken carries a constant (following nested phis).
+func (p *Path) phiValue(phi *ssa.Phi, depth int) (val, known bool) {
+	if depth > 8 {
+		return false, false
+	}
+	pb := phi.Block()
+	idx := -1
+	for i, b := range p.Blocks {
+		if b == pb {
+			idx = i
+			break
+		}
+	}
+	if idx <= 0 {
+		return false, false
+	}
+	prev := p.Blocks[idx-1]
+	for i, pred := range pb.Preds {
+		if pred != prev {
+			continue
+		}
+		switch e := phi.Edges[i].(type) {
+		case *ssa.Const:
+			if e.Value == nil {
+				return false, false
+			}
+			s := e.Value.ExactString()
+			return s == "true", s == "true" || s == "false"
+		case *ssa.Phi:
+			return p.phiValue(e, depth+1)
+		}
+		return false, false
+	}
+	return false, false
+}
+
 // boolFuncOfPaths evaluates, for a valuation of named atoms, whether some path in
 // sel is consistent with it (every condition on the path has the value the
 // valuation assigns to its atom).
@@ -120,4 +184,103 @@ func pathConsistent(p Path, name func(ssa.Value) (string, bool), val map[string]
 		}
 	}
 	return true
+}
+
+// APath is a feasible path with its conditions canonicalised to atoms.
+type APath struct {
+	Path
+	Atoms []Atom
+	Ret   *ssa.Return
+}
+
+func (a *APath) has(op, suffix string, neg bool) bool {
+	for _, x := range a.Atoms {
+		if x.Op == op && x.Neg == neg && (hasSuffixPath(x.A, suffix) || x.B != "" && hasSuffixPath(x.B, suffix)) {
+			return true
+		}
+	}
+	return false
+}
+
+func hasSuffixPath(p, suffix string) bool {
+	return p == suffix || len(p) > len(suffix) && p[len(p)-len(suffix):] == suffix
+}
+
+// atomPaths enumerates the feasible paths of fn with their atoms.
+func (fx *Facts) atomPaths(fn *ssa.Function, max int) ([]APath, bool) {
+	ps, ok := enumPaths(fn, nil, max)
+	if !ok {
+		return nil, false
+	}
+	var out []APath
+	for _, p := range ps {
+		if !p.feasible() {
+			continue
+		}
+		ap := APath{Path: p, Ret: p.Return()}
+		for _, c := range p.Conds {
+			ap.Atoms = append(ap.Atoms, fx.atomOf(c.Cond, c.Pol))
+		}
+		out = append(out, ap)
+	}
+	return out, true
+}
+
+// boolPaths: for a function returning one bool, the feasible paths split by returned
+// value. When the returned value is itself a condition (the last operand of a && / ||
+// chain), the path is split in two with that condition added as an atom.
+func (fx *Facts) boolPaths(fn *ssa.Function, max int) (truePaths, falsePaths []APath, ok bool) {
+	aps, ok := fx.atomPaths(fn, max)
+	if !ok {
+		return nil, nil, false
+	}
+	for _, ap := range aps {
+		if ap.Ret == nil || len(ap.Ret.Results) != 1 {
+			return nil, nil, false
+		}
+		v := ap.Ret.Results[0]
+		if phi, isPhi := v.(*ssa.Phi); isPhi {
+			// pick the edge the path arrived by
+			pb := phi.Block()
+			idx := -1
+			for i, b := range ap.Blocks {
+				if b == pb {
+					idx = i
+				}
+			}
+			if idx > 0 {
+				for i, pred := range pb.Preds {
+					if pred == ap.Blocks[idx-1] {
+						v = phi.Edges[i]
+					}
+				}
+			}
+		}
+		if c, isC := v.(*ssa.Const); isC && c.Value != nil {
+			if c.Value.ExactString() == "true" {
+				truePaths = append(truePaths, ap)
+			} else {
+				falsePaths = append(falsePaths, ap)
+			}
+			continue
+		}
+		t := ap
+		t.Atoms = append(append([]Atom(nil), ap.Atoms...), fx.atomOf(v, true))
+		f := ap
+		f.Atoms = append(append([]Atom(nil), ap.Atoms...), fx.atomOf(v, false))
+		truePaths = append(truePaths, t)
+		falsePaths = append(falsePaths, f)
+	}
+	return truePaths, falsePaths, true
+}
+
+func atomsString(as []Atom) string {
+	s := ""
+	for i, a := range as {
+		if i > 0 {
+			s += " & "
+		}
+		s += a.String()
+	}
+	return s
 }
